@@ -15,6 +15,20 @@ add('C02', "property-based testing: differential against a reference backtrackin
 add('C15', "property-based testing: differential against a reference matcher implementing the documented conditional semantics",
     "exploration: exhaustive small trees with both conditional forms at every position, conditional contexts x fillers, random ASTs; captures compared with the reference", REF, "DESIGN.md section 5 C15")
 
+NOREF = "trusted: rustc, the proptest runner, the harness's own span/model code; no external reference is needed for this oracle"
+add('C05', "property-based testing / fuzzing: validity predicate under catch_unwind over an unrestricted pattern grammar (exhaustive small scope, products, proptest random ASTs)",
+    "exploration: every public search entry point is driven on every generated (pattern, text, offset); any panic, invalid span or non-terminating iterator is a counterexample", NOREF, "DESIGN.md section 5 C05")
+add('C08', "property-based testing: model-based check of the find_iter history against a reference iteration model + sequence invariants + error histories",
+    "exploration: whole yielded sequences compared with the reference iteration model; invariants checked independently of the model; Err histories via tiny backtrack limits", REF, "DESIGN.md section 5 C08")
+add('C09', "property-based testing: metamorphic comparison of the search entry points with each other",
+    "exploration: is_match / find / find_from_pos / captures / captures_from_pos / find_iter / captures_iter compared pairwise on every generated case", NOREF, "DESIGN.md section 5 C09")
+add('C10', "property-based testing: model-based check of split / splitn against the find_iter matches (partition + rebuild + limit model)",
+    "exploration: pieces, rebuild round-trip, splitn limit model and fusedness on every generated (pattern, text)", NOREF, "DESIGN.md section 5 C10")
+add('C11', "property-based testing: model-based check of try_replacen / replace / replace_all against captures_iter + independent template scanner",
+    "exploration: 12 replacers x limits 0..3 on every generated (pattern, text); fast path vs slow path agreement; Err instead of panic under a tiny backtrack limit", NOREF, "DESIGN.md section 5 C11")
+add('C16', "property-based testing: metadata oracle computed from the generator's AST (group count, names), two engine forms per pattern",
+    "exploration: captures_len / capture_names / Captures::{len,iter,get,name} against the AST for delegated and VM-compiled forms", NOREF, "DESIGN.md section 5 C16")
+
 import os
 TABLE = '/verif/tools/manifest_table.json'
 if os.path.exists(TABLE):
